@@ -10,6 +10,19 @@
 
 #include "state.h"
 
+// string-instruction primitives: must not call anything (memcpy/memset below are ours)
+static inline void raw_copy_fwd(void* d, const void* s, size_t n) {
+  __asm__ volatile("rep movsb" : "+D"(d), "+S"(s), "+c"(n) : : "memory");
+}
+static inline void raw_copy_bwd(void* d, const void* s, size_t n) {
+  unsigned char* dd = (unsigned char*)d + n - 1;
+  const unsigned char* ss = (const unsigned char*)s + n - 1;
+  __asm__ volatile("std\n\trep movsb\n\tcld" : "+D"(dd), "+S"(ss), "+c"(n) : : "memory");
+}
+static inline void raw_set(void* d, int c, size_t n) {
+  __asm__ volatile("rep stosb" : "+D"(d), "+c"(n) : "a"(c) : "memory");
+}
+
 namespace sim {
 namespace rt {
 
@@ -146,7 +159,7 @@ static void* sim_alloc(size_t size, size_t align) {
     abort();
   }
   g_bump = end;
-  memset(shadow(user), 1, rounded >> 3);
+  raw_set(shadow(user), 1, rounded >> 3);
   ((uint64_t*)user)[-1] = g_blocks->size();
   ((uint64_t*)user)[-2] = 0x51b10c51b10c51b1ULL;
   g_blocks->push_back(Block{user, size, -1, false});
@@ -190,8 +203,8 @@ static void sim_free(void* p) {
   if (g_free_hook) g_free_hook(g_free_hook_ctx, p, b->size);
   b->freed = true;
   b->free_time = G.now;
-  memset(shadow(a), 2, rounded >> 3);
-  memset(p, 0xDD, rounded);
+  raw_set(shadow(a), 2, rounded >> 3);
+  raw_set(p, 0xDD, rounded);
   g_live_blocks--; g_live_bytes -= b->size;
 }
 
@@ -553,6 +566,39 @@ ATOMICS(8, uint8_t) ATOMICS(16, uint16_t) ATOMICS(32, uint32_t) ATOMICS(64, uint
 void __tsan_atomic_thread_fence(int mo) { a_fence(mo); }
 void __tsan_atomic_signal_fence(int) {}
 }  // extern "C"
+
+// ---------------------------------------------------------------------------
+// memcpy / memmove / memset: clang's TSan pass turns memory intrinsics into
+// calls of these, and uninstrumented libraries (libstdc++, abseil, protobuf)
+// call them through the PLT. Owning them makes bulk accesses visible to the
+// heap checker, the race detector and the store-buffer overlap rule.
+// Implemented with string instructions: they must not call anything.
+static inline void bulk_access(const void* p, size_t n, bool is_write) {
+  if (!n || !G.active) return;
+  uintptr_t a = (uintptr_t)p;
+  // only simulated-heap memory and registered ranges are of interest
+  if (!(in_arena(a) || (a < g_hb_hi && a + n > g_hb_lo) || (a < g_pre_hi && a + n > g_pre_lo))) return;
+  plain_access(a, n, is_write);
+}
+extern "C" {
+void* memcpy(void* d, const void* s, size_t n) {
+  bulk_access(s, n, false);
+  bulk_access(d, n, true);
+  raw_copy_fwd(d, s, n);
+  return d;
+}
+void* memmove(void* d, const void* s, size_t n) {
+  bulk_access(s, n, false);
+  bulk_access(d, n, true);
+  if ((uintptr_t)d - (uintptr_t)s >= n) raw_copy_fwd(d, s, n); else raw_copy_bwd(d, s, n);
+  return d;
+}
+void* memset(void* d, int c, size_t n) {
+  bulk_access(d, n, true);
+  raw_set(d, c, n);
+  return d;
+}
+}
 
 // ---------------------------------------------------------------------------
 // replaceable allocation functions
